@@ -34,9 +34,13 @@ type params struct {
 	Writers  int  // >1: ops are dealt round-robin to writer threads
 	FailCode bool // broker may answer chunks with a failure code (choice)
 	P        int  // schedule deviation budget
+	CloseRace bool // Close is called while the writer threads are still writing
 }
 
 func (p params) name() string {
+	if p.CloseRace {
+		return fmt.Sprintf("%s/q%d/u%v/pre%v/%s/w%d/fc%v/P%d/closerace", p.Policy, p.QoS, p.Unrel, p.Predecl, strings.Join(p.Ops, ","), p.Writers, p.FailCode, p.P)
+	}
 	return fmt.Sprintf("%s/q%d/u%v/pre%v/%s/w%d/fc%v/P%d", p.Policy, p.QoS, p.Unrel, p.Predecl, strings.Join(p.Ops, ","), p.Writers, p.FailCode, p.P)
 }
 
@@ -134,6 +138,15 @@ func scenarios(tier string) []vlib.Scenario {
 	}
 	for _, pol := range []string{"none", "immediate"} {
 		add(params{Policy: pol, QoS: message.QoSReliable, Ops: []string{"wA1", "wB1", "F", "wA2"}, Writers: 2})
+	}
+	if propID != "C20" {
+		// Close racing with writers: a write either fails or its point is delivered before the close request
+		for _, pol := range []string{"none", "immediate", "size"} {
+			add(params{Policy: pol, QoS: message.QoSReliable, Ops: []string{"wA1", "wB1"}, Writers: 2, P: 1, CloseRace: true})
+			if tier == "thorough" {
+				add(params{Policy: pol, QoS: message.QoSReliable, Ops: []string{"wA1", "wB1", "wA2"}, Writers: 2, P: 2, CloseRace: true})
+			}
+		}
 	}
 	if propID == "C20" {
 		// Flush with a cancelled context, Flush from two threads, State() against a concurrent writer
@@ -441,11 +454,18 @@ func (w *world) main() {
 				}
 			})
 		}
-		wg.Wait()
+		if !w.p.CloseRace {
+			wg.Wait()
+		}
+		defer wg.Wait()
 	}
 	w.phase = "close"
 	w.snapshot(up, "before-close")
 	w.closeErr = up.Close(ctx)
+	if w.p.CloseRace {
+		// writers that were still in flight finish (with an error or not) before the ledger is read
+		vsched.Quiesce()
+	}
 	w.ackHookAtClose = len(w.ackHook)
 	w.sendHookAtClose = len(w.sendHook)
 	for _, u := range w.b.Ups {
